@@ -21,6 +21,8 @@ C04 filt 0|1 Dre Dim xre xim -> ok re=[…] im=[…]: the `FourierFilter._operat
                       `filterPBackward` = pad at `cutStart`, `Fft.dft2`, `shiftD`, multiply, inverse `Fft.dft2`, crop) on Gaussian
                       rationals, forward (0) or backward (1), for the filter set up (internal sizes must be in {1,2,4});
                       D centred, row-major My·Mx; x row-major ny·nx
+C04 filtp 0|1 Dre Dim xre xim -> ok out=c:t,c:t;…: the same pipeline on formal phase sums (`filtOpP`), any internal size with
+                      My·Mx ≤ 64: per output pixel (row-major, `;`-separated) the terms `c·exp(2πi t)` as `c:t`
 C04 ir jy         -> ok amp=… turns=[…] (fresnel) | ok r2=[…] (angular): impulse response on row jy of the
                       enlarged grid, for jx = 0..Mx-1 and all s² dithers (x dither fastest)
 ```
@@ -129,6 +131,18 @@ def step (st : St) : List String → St × String
       let x := (xre.zip xim).map fun (a, b) => (⟨a, b⟩ : GRat)
       let r := filtOp p (back == 1) D x
       (st, s!"ok re={showRatList (r.map (·.re))} im={showRatList (r.map (·.im))}")
+    | none, some _, some _, some _, some _, some _ => (st, "err value")
+    | _, _, _, _, _, _ => (st, "bad-op")
+  | ["filtp", back, dre, dim, xre, xim] =>
+    match st.p, parseNat? back, parseRatList? dre, parseRatList? dim, parseRatList? xre, parseRatList? xim with
+    | some p, some back, some dre, some dim, some xre, some xim =>
+      if back > 1 || my p * mx p > 64 || !(padOK p) || dre.length ≠ my p * mx p || dim.length ≠ my p * mx p
+          || xre.length ≠ p.ny * p.nx || xim.length ≠ p.ny * p.nx then (st, "err value") else
+      let D := (dre.zip dim).map fun (a, b) => (⟨a, b⟩ : GRat)
+      let x := (xre.zip xim).map fun (a, b) => (⟨a, b⟩ : GRat)
+      let r := filtOpP p (back == 1) D x
+      let showT := fun (t : Fft.Term) => if t.r == 0 then s!"{showRat t.c}:{showRat t.t}" else "?"
+      (st, "ok out=" ++ ";".intercalate (r.map fun s => ",".intercalate (s.terms.map showT)))
     | none, some _, some _, some _, some _, some _ => (st, "err value")
     | _, _, _, _, _, _ => (st, "bad-op")
   | ["ir", jy] =>
